@@ -7,8 +7,9 @@ Implementation side (this file):
   * MONITOR (independent of the Coq model): Wing-Gong linearizability search of the per-call results against a
     plain-Python reference dictionary-with-expiry (RefCache below, written from the property text and Appendix B of
     DESIGN.md), respecting real-time precedence (A before B iff A's last event precedes B's first event) and ending
-    in the observed final contents.  The only tolerated anomaly: a lookup (get / in / []) overlapping a write,
-    removal or eviction of the same key by another client may report a miss;
+    in the observed final contents.  Nothing is tolerated: a lookup (get / in / []) that overlaps the replacement of
+    the value by another client must return the old or the new value (a lookup that overlaps a removal of the key may
+    of course miss: the key is absent afterwards, so that IS an order of the two calls);
   * direct monitors: one winner among concurrent add / pop / delete, no lost incr, every value a lookup returns is
     a value that was written for that key (no partial or mixed value);
   * thorough: free-running soak with real threads and processes (no scheduler, timeout 60): only outcomes that are
@@ -449,12 +450,13 @@ def same(a, b, unordered=False):
                                               and not isinstance(a, bool) and not isinstance(b, bool))
 
 
-def linearize(actions, init, final_ok=None, tolerate=True, wild=(), max_nodes=200000):
+def linearize(actions, init, final_ok=None, wild=(), max_nodes=200000):
     """Search an order of `actions` that respects real-time precedence, explains every observed result by the
     reference `init` (a Ref* object) and ends in a state accepted by final_ok(state).
-    tolerate: allow the property's one anomaly (a lookup overlapping another client's write of the same key misses).
     wild: operation names (or a predicate on calls) whose results are not compared (used only to classify a failure).
-    Returns (order as list of action ids, number of anomalies used) or None."""
+    Returns the order (list of action ids) or None.  Every result must be explained exactly: there is no tolerated anomaly
+    (until the repair recorded under C12 in known_findings.txt a lookup overlapping another client's write of the same key
+    was allowed to miss)."""
     n = len(actions)
     idx = {a.aid: a for a in actions}
     preds = {a.aid: set(b.aid for b in actions if b is not a and b.last < a.first) for a in actions}
@@ -463,19 +465,9 @@ def linearize(actions, init, final_ok=None, tolerate=True, wild=(), max_nodes=20
     memo = set()
     nodes = [0]
 
-    def anomaly_ok(a, call):
-        if not tolerate or call['op'] not in LOOKUPS:
-            return False
-        k = repr(call.get('key'))
-        for b in actions:
-            if b.client != a.client and b.writes and (k in b.keys or '*' in b.keys) and overlaps(a, b):
-                return True
-        return False
-
     def step(a, st):
-        """Apply action a to a copy of st.  Returns (new state, anomalies) or None."""
+        """Apply action a to a copy of st.  Returns the new state or None."""
         s2 = st.copy()
-        anomalies = 0
         for call, obs in a.steps:
             if obs == ('exc', 'Timeout'):
                 continue            # no effect; contention is checked separately
@@ -484,21 +476,16 @@ def linearize(actions, init, final_ok=None, tolerate=True, wild=(), max_nodes=20
                 continue
             if r[0] == obs[0] and (same(r[1], obs[1], unordered) if r[0] == 'ok' else r[1] == obs[1]):
                 continue
-            hit = r[0] == 'ok' and r[1] not in (MISS, False)
-            miss = obs in (('ok', MISS), ('ok', False), ('exc', 'KeyError'))
-            if hit and miss and anomaly_ok(a, call):
-                anomalies += 1
-                continue
             return None
-        return (st if a.abort else s2), anomalies
+        return st if a.abort else s2
 
-    def rec(done, st, order, anomalies):
+    def rec(done, st, order):
         nodes[0] += 1
         if nodes[0] > max_nodes:
             return None
         if len(done) == n:
             if final_ok is None or final_ok(st):
-                return list(order), anomalies
+                return list(order)
             return None
         key = (frozenset(done), st.key())
         if key in memo:
@@ -506,13 +493,12 @@ def linearize(actions, init, final_ok=None, tolerate=True, wild=(), max_nodes=20
         for a in actions:
             if a.aid in done or not preds[a.aid] <= done:
                 continue
-            r = step(a, st)
-            if r is None:
+            s2 = step(a, st)
+            if s2 is None:
                 continue
-            s2, an = r
             done.add(a.aid)
             order.append(a.aid)
-            out = rec(done, s2, order, anomalies + an)
+            out = rec(done, s2, order)
             if out is not None:
                 return out
             order.pop()
@@ -520,7 +506,7 @@ def linearize(actions, init, final_ok=None, tolerate=True, wild=(), max_nodes=20
         memo.add(key)
         return None
 
-    return rec(set(), init, [], 0)
+    return rec(set(), init, [])
 
 
 def actions_of_calls(calls):
@@ -628,27 +614,21 @@ def check_run(r, programs, setup, kind='cache', stats=None, init=None):
     acts = actions_of_calls(r['calls'])
     init = init if init is not None else make_ref(kind, setup)
     fin = final_matches(kind, snap)
-    res = linearize(acts, init, fin, tolerate=False)
-    anomalies = 0
-    if res is None:
-        res = linearize(acts, init, fin, tolerate=True)
-        if res is not None:
-            anomalies = res[1]
+    res = linearize(acts, init, fin)
     if stats is not None:
-        stats['anomalies'] += anomalies
-        if anomalies:
-            for a in acts:
-                for c, o in a.steps:
-                    if c['op'] in LOOKUPS and o in (('ok', MISS), ('ok', False), ('exc', 'KeyError')):
-                        stats['anomaly_ops'][c['op']] = stats['anomaly_ops'].get(c['op'], 0) + 1
+        # lookups that found their value file gone and looked the row up again (SELECT, failed open, SELECT, ...)
+        for recs in r['calls']:
+            for rec in recs:
+                if rec.get('op') in ('get', 'getitem') and not rec.get('depth') and lookup_selects(rec.get('events', [])) > 1:
+                    stats['lookups_that_looked_again'] += 1
     if res is None:
-        # classify: which relaxation makes it explainable?
+        # name the operation whose results cannot be explained (a description of the failure, not an excuse for it)
         sig = 'not_linearizable'
-        if linearize(acts, init, None, tolerate=True) is not None:
+        if linearize(acts, init, None) is not None:
             sig = 'final_contents_unexplained'
         else:
             for opn in ('iter', 'len', 'get', 'contains', 'incr', 'add', 'pop', 'delete', 'touch', 'set'):
-                if any(c['op'] == opn for a in acts for c, _ in a.steps) and linearize(acts, init, fin, tolerate=True, wild=(opn,)) is not None:
+                if any(c['op'] == opn for a in acts for c, _ in a.steps) and linearize(acts, init, fin, wild=(opn,)) is not None:
                     sig = {'iter': 'iter_not_atomic'}.get(opn, 'not_linearizable:%s' % opn)
                     break
         desc = 'no order of the %d completed calls explains their results (%s) and the final contents %s' % (
@@ -656,6 +636,13 @@ def check_run(r, programs, setup, kind='cache', stats=None, init=None):
             [[x[0], x[2]] for x in snap['items']])
         out.append((sig, desc))
     return out
+
+
+def lookup_selects(events):
+    """number of SELECT statements a lock-free lookup executed (events: ['sql:SELECT', 'file:open-read', ...] of one call)"""
+    if any(e in ('sql:BEGIN', 'sql:COMMIT', 'sql:ROLLBACK') for e in events):
+        return 0
+    return sum(1 for e in events if e == 'sql:SELECT')
 
 
 def trace_record(r, programs, schedule, setup, mode, settings, kind='cache'):
@@ -778,7 +765,8 @@ def corpus():
     ]
 
 
-# the schedule of finding D12: reader SELECT; writer store + BEGIN + UPDATE + COMMIT + remove; reader open
+# the schedule of the former finding D12 / C12-F1 (known_findings.txt, fixed: property=C12): reader SELECT; writer store + BEGIN +
+# UPDATE + COMMIT + remove; reader open.  The open fails; the lookup must look the row up again and return the NEW value.
 D12_SCHEDULE = [0] + [1] * 40 + [0] * 10
 
 
@@ -813,6 +801,12 @@ def direct_check(kind_, r, programs, setup):
         for rec in flat:
             if rec['op'] == 'get' and rec.get('result') not in (MISS, BIG1, BIG2):
                 out.append(('value_never_written', 'reader saw %r' % (rec.get('result'),)))
+    elif kind_ == 'reader_present':
+        # the key is present in every committed state (its value is only ever replaced): the lookup must find the old or the new value
+        for rec in flat:
+            if rec['op'] == 'get' and rec.get('result') not in (BIG1, BIG2):
+                out.append(('present_key_not_found', 'the key is present throughout (its value is replaced, never removed) but the lookup of client %d '
+                            'returned %r; its events: %s' % (rec['client'], rec.get('result', rec.get('exc')), rec.get('events'))))
     return out
 
 
@@ -821,7 +815,7 @@ def direct_check(kind_, r, programs, setup):
 
 
 def new_stats():
-    return {'runs': 0, 'contended': 0, 'anomalies': 0, 'anomaly_ops': {}, 'timeouts': 0, 'overflow': 0, 'by_clients': {}, 'by_calls': {},
+    return {'runs': 0, 'contended': 0, 'lookups_that_looked_again': 0, 'timeouts': 0, 'overflow': 0, 'by_clients': {}, 'by_calls': {},
             'by_mode': {}, 'ops': {}, 'file_backed_runs': 0, 'schedules_enumerated': 0, 'programs_enumerated': 0, 'exhaustive_programs': 0,
             'max_steps_seen': 0}
 
@@ -865,7 +859,7 @@ def one_case(ctx, res, stats, programs, setup, schedule, mode, label, driver='th
     if r['overflow']:
         stats['overflow'] += 1
     viol = check_run(r, programs, setup, 'cache', stats)
-    if expect and not viol:
+    if expect and (not viol or expect == 'reader_present'):
         viol += direct_check(expect, r, programs, setup)
     # non-trivial = at least two clients' calls overlap in time
     acts = actions_of_calls(r['calls'])
@@ -894,6 +888,9 @@ def enough(res, prop=None, expected=EXPECTED_SIGS):
 
 
 def run_corpus(ctx, res, stats, per_program, exhaustive_limit):
+    # regression input (former finding D12 / C12-F1), first: under the D12 schedule the reader's open falls after the writer's removal of
+    # the old file; the lookup must look the row up again and return the new value.  Reported under the raw signatures of the monitors.
+    d12_regression(ctx, res, stats)
     for name, programs, setup, expect in corpus():
         seqs = concdrv.solo_events(ctx, programs, settings=SETTINGS, setup=setup)
         units = [concdrv.units_of(s) for s in seqs]
@@ -911,11 +908,6 @@ def run_corpus(ctx, res, stats, per_program, exhaustive_limit):
                 return
             if ctx.deadline and _time.time() > ctx.deadline - 120:
                 break           # slow file system: keep time for the other phases
-    # the D12 schedule must exercise the tolerated anomaly
-    name, programs, setup, expect = [c for c in corpus() if c[0] == 'reader_vs_replace_file'][0]
-    before = stats['anomalies']
-    one_case(ctx, res, stats, programs, setup, D12_SCHEDULE, 'own', 'corpus:D12-schedule', expect=expect)
-    stats['d12_schedule_anomaly_seen'] = stats['anomalies'] > before
     # a value file is created in a sub-directory that another client's removal prunes at that very moment (all files of this Disk share
     # one sub-directory): the store must still succeed (Disk._write creates the directory again and retries)
     settings = dict(SETTINGS, disk=SharedDirDisk)
@@ -945,6 +937,22 @@ def run_corpus(ctx, res, stats, per_program, exhaustive_limit):
     programs, setup, schedule = ITER_WITNESS
     v = one_case(ctx, res, stats, programs, setup, schedule, 'own', 'corpus:iter-witness')
     res.witnessed['iter_not_atomic'] = any(sig == 'iter_not_atomic' for sig, _ in v)
+
+
+def d12_regression(ctx, res, stats):
+    name, programs, setup, _ = [c for c in corpus() if c[0] == 'reader_vs_replace_file'][0]
+    info = {}
+    for mode in ('own', 'shared'):
+        before = len(TRACE_RECORDS)
+        one_case(ctx, res, stats, programs, setup, D12_SCHEDULE, mode, 'corpus:D12-schedule', expect='reader_present')
+        t = TRACE_RECORDS[before] if len(TRACE_RECORDS) > before else None
+        rec = t['calls'][0][0] if t and t['calls'][0] else {}
+        evs = [e for e in rec.get('events', []) if e.split(':')[0] in ('sql', 'file')]
+        # did the schedule put the writer's removal between the reader's SELECT and its open?  (first open not followed by a read)
+        failed_open = any(e == 'file:open-read' and (i + 1 == len(evs) or evs[i + 1] != 'file:read') for i, e in enumerate(evs))
+        info[mode] = {'reader_events': evs, 'reader_result': 'new value' if rec.get('result') == BIG2 else ('old value' if rec.get('result') == BIG1 else repr(rec.get('result', rec.get('exc')))),
+                      'first_open_failed': failed_open, 'selects': lookup_selects(evs)}
+    stats['d12_regression'] = info
 
 
 def run_random(ctx, res, stats, npairs, modes, drivers=('thread',)):
@@ -1128,7 +1136,8 @@ RULE = ('programs of 2-4 clients x 1-3 calls from {set, add, incr, decr, get, po
         'retry on/off, 0-2 preset items; each run under the deterministic scheduler (threads with own Cache objects, threads sharing one '
         'Cache, forked processes) along a random fine- or coarse-grained schedule, plus hand-picked races whose schedules are enumerated; '
         'monitor = linearizability search against the Python reference dictionary with real-time precedence and the observed final contents; '
-        'tolerated: a lookup overlapping another client\'s write of the same key reports a miss.  '
+        'nothing is tolerated: a lookup overlapping another client\'s replacement of the value returns the old or the new value (regression '
+        'input: the schedule reader SELECT; writer store, BEGIN, UPDATE, COMMIT, remove; reader open).  '
         'Fresh interpreters (started from scratch with different PYTHONHASHSEED, nothing inherited) on one FanoutCache / Cache directory with text '
         'keys: run one after the other their calls give the results of a dictionary; run at the same time every increment of a shared counter is '
         'counted once and every key is added by exactly one of them.  '
@@ -1354,8 +1363,8 @@ def run(ctx, big=False):
     res.extra.update({'fresh_interpreter_cases': stats.get('fresh_interpreter_cases'),
         'runs': stats['runs'], 'programs_by_clients': stats['by_clients'], 'programs_by_calls': stats['by_calls'], 'runs_by_driver_mode': stats['by_mode'],
         'op_histogram': stats['ops'], 'runs_with_contention_reached': stats['contended'], 'calls_that_timed_out': stats['timeouts'],
-        'runs_with_file_backed_values': stats['file_backed_runs'], 'tolerated_anomalies_seen': stats['anomalies'],
-        'tolerated_anomalies_by_op': stats['anomaly_ops'], 'd12_schedule_exercises_the_anomaly': stats.get('d12_schedule_anomaly_seen'),
+        'runs_with_file_backed_values': stats['file_backed_runs'], 'lookups_that_looked_again': stats['lookups_that_looked_again'],
+        'd12_schedule_regression': stats.get('d12_regression'),
         'schedules_enumerated': stats['schedules_enumerated'], 'programs_enumerated': stats['programs_enumerated'],
         'programs_enumerated_exhaustively': stats['exhaustive_programs'], 'step_budget_overflows': stats['overflow'],
         'longest_run_steps': stats['max_steps_seen'], 'trace_records': len(TRACE_RECORDS),
